@@ -534,6 +534,45 @@ fn interpolate_coeffs(pts: &[(BigUint, BigUint)], p: &BigUint) -> Vec<BigUint> {
 pub fn c02(tier: &str, seed: u64) {
   let mut g = Sm::new(seed, "oracle.C02");
   let p = crate::o_sharks::modulus();
+  // secrets of SEVERAL field elements shared directly through the Shamir layer: every element has
+  // its own polynomial, so in a single share the differences of the values say nothing about the
+  // differences of the secret elements (equal higher coefficients would make y_i - y_j = s_i - s_j)
+  {
+    use star_sharks::Sharks;
+    let rounds = if quick(tier) { 30 } else { 300 };
+    for ri in 0..rounds {
+      let t = *g.pick(&[2u32, 2, 3, 5, 16, 64, 65]);
+      let k = 2 + (ri % 4) as usize;
+      let elems: Vec<num_bigint::BigUint> = (0..k).map(|_| num_bigint::BigUint::from_bytes_le(&g.bytes(16))).collect();
+      let mut secret = Vec::new();
+      for e in &elems {
+        let mut v = e.to_bytes_le();
+        v.resize(24, 0);
+        secret.extend(v);
+      }
+      let sharks = Sharks(t);
+      let Ok(mut ev) = sharks.dealer(&secret) else {
+        fail("dealer_refused_valid_secret", &[("threshold", t.to_string()), ("secret", hex(&secret))]);
+        continue;
+      };
+      let sh = if ri % 2 == 0 { ev.next().unwrap() } else { ev.gen(&mut rand::rngs::OsRng) };
+      let ys: Vec<num_bigint::BigUint> = sh.y.iter().map(crate::o_sharks::big).collect();
+      for i in 0..k.min(ys.len()) {
+        for j in (i + 1)..k.min(ys.len()) {
+          let dy = (&ys[i] + &p - &ys[j]) % &p;
+          let ds = (&elems[i] + &p - &elems[j]) % &p;
+          if dy == ds {
+            fail(
+              "single_share_reveals_difference_of_secret_elements",
+              &[("threshold", t.to_string()), ("elements", format!("{} and {}", i, j)), ("secret", hex(&secret)), ("share", hex(&Vec::from(&sh))), ("y_i_minus_y_j", dy.to_str_radix(16)), ("s_i_minus_s_j", ds.to_str_radix(16))],
+            );
+          }
+        }
+      }
+      case(true);
+    }
+    stat("oracle.C02.multi_element_secrets");
+  }
   let n = if quick(tier) { 40 } else { 500 };
   let mut all_coeffs: std::collections::BTreeSet<Vec<u8>> = Default::default();
   let mut coeff_total = 0usize;
@@ -868,6 +907,28 @@ pub fn payload_of(m: &[u8], aux: &Option<Vec<u8>>) -> Vec<u8> {
 
 pub fn c03(tier: &str, seed: u64) {
   let mut g = Sm::new(seed, "oracle.C03");
+  // measurements that a text normalisation would identify are DIFFERENT measurements: their
+  // encryption keys and tags differ, and lone reports of two of them do not combine
+  for (base, t, e) in [(b"https://example.com/a".to_vec(), 2u32, b"ep".to_vec()), ({ let mut v = g.blob(32); v[5] = b'k'; v }, 3, vec![]), (vec![0x80u8; 32], 2, vec![1])] {
+    let fam = normalisation_family(&base);
+    let mut keys: std::collections::BTreeMap<Vec<u8>, Vec<u8>> = Default::default();
+    let mut tags: std::collections::BTreeMap<Vec<u8>, Vec<u8>> = Default::default();
+    for f in &fam {
+      let w = MessageGenerator::new(SingleMeasurement::new(f), t, &e).share_with_local_randomness().expect("share");
+      if let Some(prev) = keys.insert(w.key.to_vec(), f.clone()) {
+        fail("encryption_key_degenerate", &[("measurement_1", hex(&prev)), ("measurement_2", hex(f)), ("epoch", hex(&e)), ("threshold", t.to_string()), ("key_1", hex(&w.key)), ("key_2", hex(&w.key))]);
+      }
+      if let Some(prev) = tags.insert(w.tag.to_vec(), f.clone()) {
+        // two lone reports: pooled, they must not open
+        let c1 = make_client(&prev, &e, 2, Some(b"aux of the first".to_vec()), None);
+        let c2 = make_client(f, &e, 2, Some(b"aux of the second".to_vec()), None);
+        let opened = share_recover(&[c1.msg.share.clone(), c2.msg.share.clone()]).is_ok();
+        fail("tag_shared_by_different_measurements", &[("measurement_1", hex(&prev)), ("measurement_2", hex(f)), ("epoch", hex(&e)), ("threshold", t.to_string()), ("tag", hex(&w.tag)), ("two_lone_reports_at_threshold_2_recover", opened.to_string())]);
+      }
+      case(true);
+    }
+    stat("oracle.C03.normalisation_families");
+  }
   let n = if quick(tier) { 40 } else { 500 };
   for case_i in 0..n {
     // thresholds small, and now and then beyond the 8- and 16-bit marks
@@ -1165,6 +1226,16 @@ pub fn c04(tier: &str, seed: u64) {
       check_distinct(&m0, f, 3, &mut seen);
     }
   }
+  // what a text NORMALISATION would identify (byte-order marks, invisible characters, trimming, case,
+  // Unicode forms, bytes that only a lossy decoder equates): every byte string is its own measurement
+  // and its own epoch
+  for base in [b"https://example.com/a".to_vec(), b"abc".to_vec(), vec![], { let mut v = g.blob(31); v.push(0x41); v }] {
+    for f in normalisation_family(&base) {
+      check_distinct(&f, &e0, 3, &mut seen);
+      check_distinct(&m0, &f, 3, &mut seen);
+    }
+    stat("oracle.C04.normalisation_families");
+  }
   // epochs (and measurements) that are not text: bytes >= 0x80, truncated and over-long UTF-8 - every
   // byte string is its own epoch
   {
@@ -1204,6 +1275,40 @@ pub fn c04(tier: &str, seed: u64) {
   for l in 0..m0.len() {
     check_distinct(&m0[..l], &e0, 3, &mut seen);
     check_distinct(&m0, &m0[..l], 3, &mut seen);
+  }
+  // a LONG RUN of clients of one triple served by one thread (a simulation, a batch job): every
+  // report still has its own evaluation point, also against the first ones, and any two combine
+  {
+    let runs = if quick(tier) { 20000usize } else { 200000 };
+    let (m, e, t) = (b"long run of one triple".to_vec(), b"ep".to_vec(), 2u32);
+    let mg = MessageGenerator::new(SingleMeasurement::new(&m), t, &e);
+    let mut seen_x: std::collections::HashMap<Vec<u8>, usize> = Default::default();
+    let mut first: Vec<sta_rs::Share> = Vec::new();
+    let mut reported = 0;
+    for i in 0..runs {
+      let Ok(w) = mg.share_with_local_randomness() else {
+        fail("share_refused", &[("client", i.to_string())]);
+        break;
+      };
+      let x = share_x(&w.share.to_bytes());
+      if let Some(&j) = seen_x.get(&x) {
+        if reported < 3 {
+          reported += 1;
+          let combine = first.get(j).map(|s| share_recover(&[s.clone(), w.share.clone()]).is_ok());
+          fail(
+            "share_point_repeated_between_clients",
+            &[("measurement", hex(&m)), ("epoch", hex(&e)), ("threshold", t.to_string()), ("what", "clients of one triple generated one after the other on one thread".into()), ("clients", format!("{} and {}", j, i)), ("x", hex(&x)), ("the_two_shares_combine", format!("{:?}", combine))],
+          );
+        }
+      } else {
+        seen_x.insert(x, i);
+      }
+      if first.len() < 5000 {
+        first.push(w.share.clone());
+      }
+    }
+    stat_n("oracle.C04.long_run_clients", runs as u64);
+    case(true);
   }
   // equal triples: >= 8 independent clients, any aux => equal tag and key, distinct points, combinable
   let n = if quick(tier) { 25 } else { 300 };
